@@ -80,7 +80,7 @@ KEYS = [("key%d" % i).encode() for i in range(24)]
 
 
 def scenario(rng, quick):
-    """(use_vpc, chunk choices, steps): a step is ('adv', entries) | ('error',) | ('error2',) | ('refuse', entry) | ('accept', entry) | ('tick', seconds) | ('traffic',)"""
+    """(use_vpc, chunk choices, steps): a step is ('adv', entries) | ('version', n) | ('error',) | ('error2',) | ('refuse', entry) | ('accept', entry) | ('tick', seconds) | ('traffic',)"""
     steps = []
     cur = rng.sample(UNIVERSE, rng.randrange(1, 7))
     steps.append(("adv", list(cur)))
@@ -153,6 +153,9 @@ def run_scenario(sc):
         for i, st in enumerate(steps):
             if st[0] == "tick":
                 clock.last += st[1]
+                continue
+            if st[0] == "version":          # the configuration version the endpoint will report next (it counts up from there)
+                cl.version = st[1]
                 continue
             if st[0] == "refuse":
                 e = st[1]
@@ -461,6 +464,12 @@ def search(ctx):
                 rest = [x for j, x in enumerate(nodes) if j != victim]
                 fixed.append((vpc, [], [("adv", nodes), ("refuse", nodes[victim]), ("traffic",), ("adv", rest), ("accept", nodes[victim]), ("tick", 61), ("traffic",),
                                         ("tick", 200), ("traffic",), ("adv", rest)]))
+    # the version number in the reply is the endpoint's business: whatever it is (more digits than last time, lower than last time),
+    # the advertised list is what counts
+    for vpc in (True, False):
+        for v0 in (8, 98, 0):
+            fixed.append((vpc, [], [("version", v0), ("adv", UNIVERSE[:3]), ("adv", UNIVERSE[:2]), ("adv", UNIVERSE[:2] + UNIVERSE[3:4]), ("adv", UNIVERSE[:1]), ("traffic",)]))
+        fixed.append((vpc, [], [("version", 50), ("adv", UNIVERSE[:3]), ("version", 3), ("adv", UNIVERSE[1:2]), ("traffic",), ("version", 3), ("adv", UNIVERSE[4:6])]))
     # a node evicted by the failover and STILL advertised: the next reconfiguration (same list, or a superset) puts it back
     for vpc in (True, False):
         for n_nodes in (2, 3):
